@@ -21,7 +21,7 @@ ROOT = os.path.dirname(os.path.dirname(os.path.abspath(__file__)))
 CORPUS = os.path.join(ROOT, "corpus", "C08")
 
 HDR = ("From Coq Require Import List ZArith NArith QArith Qcanon String Ascii Bool.\n"
-       "From Qryn Require Import lib.Strs model.Logql model.LogqlPlan model.LogqlMetricSem.\n"
+       "From Qryn Require Import lib.Strs model.Logql model.LogqlPlan model.LogqlMetricSem model.LogqlMetricPost.\n"
        "Import ListNotations.\nOpen Scope Z_scope.\n")
 
 LRA_FNS = {"rate": "FRate", "count_over_time": "FCountOverTime", "bytes_rate": "FBytesRate", "bytes_over_time": "FBytesOverTime",
@@ -127,7 +127,7 @@ def run_post(ck):
         part = good[k:k + 400]
         txt = HDR + "Definition cases : list pcase := [\n " + ";\n ".join(pcase_coq(c) for c in part) + "].\n" \
             "Definition M := Eval vm_compute in post_mismatches cases.\nPrint M.\n" \
-            "Definition V := Eval vm_compute in post_spec_violations cases.\nPrint V.\n"
+            "Definition V := Eval vm_compute in (post_spec_violations cases ++ post_spec2_violations cases)%list.\nPrint V.\n"
         rc, out = ck.coq_eval("C08_post_%d" % (k // 400), txt)
         flat = " ".join(out.split())
         m = re.search(r"M = \[(.*?)\]\s*: list Z", flat)
@@ -140,11 +140,11 @@ def run_post(ck):
     byid = {c["id"]: c for c in good}
     ck.obligation("correspondence: model fix_period / zero_eater = FixPeriodPlanner / ZeroEaterPlanner on %d scripted row lists" % len(good),
                   not mism and not bad, "mismatching case ids: %s" % mism[:10])
-    ck.obligation("spec oracle fix_out_ok / zero_out_ok accepts every observed post-processor output", not viol, "violating case ids: %s" % viol[:10])
+    ck.obligation("spec oracle fix_period_spec / fix_out_ok / zero_out_ok accepts every observed post-processor output", not viol, "violating case ids: %s" % viol[:10])
     size = lambda c: sum(len(b or []) for b in c["in"] or [])
     if viol:
         worst = min((byid[i] for i in viol), key=size)
-        ck.violation({"property": "C08", "part": "post-processors", "kind": "step-fixed matrix violates its specification (grid, order, zero-free, values from a covering window) or the window handed to the SQL is not made of whole range windows covering [from, to]",
+        ck.violation({"property": "C08", "part": "post-processors", "kind": "step-fixed matrix violates its specification (fix_period_spec: per series, slot i = the value of the last row whose range window covers it, non-zero slots reported on the step grid; fix_out_ok; zero_out_ok) or the window handed to the SQL is not made of whole range windows covering [from, to]",
                       "case": worst, "replay": "harness metricpost --cases <file with this case>"})
     elif mism:
         worst = min((byid[i] for i in mism), key=size)
